@@ -3,3 +3,28 @@ const("src/serde/incremental.rs", "BACK_REFERENCE", "incBackReference", 0xfe)
 const("src/serde/incremental.rs", "CONS_BOX_MARKER", "incConsBoxMarker", 0xff)
 # tree_cache.rs: nodes with a shorter serialization are never entered into `serialized_nodes`
 const("src/serde/tree_cache.rs", "MIN_SERIALIZED_LENGTH", "treeCacheMinSerializedLength", 4)
+const("src/serde/tree_cache.rs", "MAX_PARENTS", "treeCacheMaxParents", 8)
+# path_builder.rs serialized_length(): the upper ends of the `len` ranges and the single-byte test
+def _pb():
+    import re as _r
+    m = _r.search(r"pub fn serialized_length\(&self\) -> u32 \{(.*?)\n    \}", src("src/serde/path_builder.rs"), _r.S)
+    vals = None
+    if m:
+        body = m.group(1)
+        rows = _r.findall(r"(0x[0-9a-fA-F]+|\d+)\.\.=(0x[0-9a-fA-F]+|\d+)\s*=>\s*(\d+) \+ len", body)
+        one = _r.search(r"self\.store\[0\] >= (\d+|0x[0-9a-fA-F]+)", body)
+        try:
+            vals = [[int(lo, 0), int(hi, 0), int(k)] for lo, hi, k in rows]
+            onev = int(one.group(1), 0)
+            if len(vals) != 4:
+                vals = None
+        except Exception:
+            vals = None
+    if vals is None:
+        misses.append("src/serde/path_builder.rs:serialized_length arms")
+        vals = [[2, 0x3f, 1], [0x40, 0x1ff, 2], [0x200, 0xfffff, 3], [0x1000000, 0x7ffffff, 4]]
+        onev = 80
+    raw("pathBuilderLenArms", "List (Nat × Nat × Nat)", "[" + ", ".join("(%d, %d, %d)" % tuple(v) for v in vals) + "]",
+        "src/serde/path_builder.rs serialized_length: (lo, hi, extra) of the arms `lo..=hi => extra + len` (last arm: 5 + len)")
+    raw("pathBuilderSingleByteMin", "Nat", str(onev), "src/serde/path_builder.rs serialized_length: `self.store[0] >= N` (decimal in the source)")
+_pb()
